@@ -12,6 +12,5 @@ INVARIANT BindComplete
 INVARIANT OneBody
 INVARIANT GuardOrder
 INVARIANT ExcFinal
-INVARIANT StmtWF
 INVARIANT Publish
 CHECK_DEADLOCK FALSE
